@@ -199,13 +199,13 @@ def run_driver(mode, lines, timeout=1800):
 # ------------------------------------------------------------------------------------------
 # the check
 # ------------------------------------------------------------------------------------------
-def failing_theorems(build_output):
-    """map `error: …IntegerThmsNN.lean:LINE` to theorem names."""
+def failing_theorems(build_output, pfx="Integer"):
+    """map `error: …<pfx>ThmsNN.lean:LINE` to theorem names."""
     srcs = {}
     names = {}
     other = []
     for f, ln, col, msg in common.lean_errors(build_output):
-        if not re.search(r"IntegerThms\d\d\.lean$", f):
+        if not re.search("/" + pfx + r"Thms\d\d\.lean$", f):
             other.append((f, ln, msg))
             continue
         base = os.path.basename(f)
@@ -222,7 +222,17 @@ def failing_theorems(build_output):
     return names, other
 
 
-def run(prop, tier, seed, replay=None):
+SETS = {
+    # which generated set decides which property
+    "C01": dict(prefix="Integer", meta="integer_meta.json", mode="integer", hflags=[], by_prop=True),
+    "C02": dict(prefix="Integer", meta="integer_meta.json", mode="integer", hflags=[], by_prop=True),
+    "C15": dict(prefix="IntegerAlias", meta="integerAlias_meta.json", mode="integer_alias", hflags=["-DALIAS_STUBS"], by_prop=False),
+}
+
+
+def run(prop, tier, seed, replay=None, finish=True):
+    SET = SETS[prop]
+    PFX = SET["prefix"]
     V = report.Verdict(prop, tier, seed, "proof")
     V.assumptions = [
         "GMP's mpz_* functions are modelled by their documented contracts (Prim/Gmp.lean), not verified",
@@ -234,23 +244,25 @@ def run(prop, tier, seed, replay=None):
     t0 = time.time()
     try:
         meta = gen_integer.generate(common.LEAN_DIR, GEN)
+        with open(os.path.join(GEN, SET["meta"])) as fh:
+            meta = json.load(fh)
     except Exception as e:  # clang cannot parse the tree, translator crash
         V.violation("translator", {"obligation": "translation of the gmp++ layer", "error": str(e)[-3000:]}, no_failing_input=True)
         V.coverage = {"obligations": 1, "discharged": 0, "checker_cmd": "translate/gen_integer.py", "trusted_base": report.TRUSTED_BASE_COMMON,
                       "evaluations": 1, "distinct_nontrivial": 0}
         V.finish()
     t_gen = time.time() - t0
-    mine = [f for f in meta["functions"] if f["spec"] and f["spec"]["prop"] == prop]
+    mine = [f for f in meta["functions"] if f["spec"] and (f["spec"]["prop"] == prop or not SET["by_prop"])]
     keys = {f["key"] for f in mine}
 
     # 2. Lean: build the theorems and the driver
-    chunks = ["GivaroModel.Generated.IntegerThms%02d" % i for i in range(meta["nchunk"])]
+    chunks = ["GivaroModel.Generated.%sThms%02d" % (PFX, i) for i in range(meta["nchunk"])]
     props_mod = "GivaroModel.Props.%s" % prop
     ok, out, t_lean = common.lake_build(chunks + ["driver"])
     ok_p, out_p, t_p = common.lake_build([props_mod]) if ok else (False, "generated theorems failed; %s not built" % props_mod, 0)
     t_lean += t_p
-    failing, other = failing_theorems(out)
-    bad_chunks = {int(m.group(1)) for m in re.finditer(r"IntegerThms(\d\d)\.lean:\d+:\d+", out)} if not ok else set()
+    failing, other = failing_theorems(out, PFX)
+    bad_chunks = {int(m.group(1)) for m in re.finditer(PFX + r"Thms(\d\d)\.lean:\d+:\d+", out)} if not ok else set()
     if not ok and not failing:
         # the model or the spec file itself does not elaborate: nothing is proved
         V.violation("lean_build", {"obligation": "lake build GivaroModel.Generated.IntegerThms driver", "output": out[-4000:]}, no_failing_input=True)
@@ -274,7 +286,7 @@ def run(prop, tier, seed, replay=None):
         import concurrent.futures as cf
         def audit(item):
             ci, names = item
-            return common.print_axioms("GivaroModel.Generated.IntegerThms%02d" % ci, names)
+            return common.print_axioms("GivaroModel.Generated.%sThms%02d" % (PFX, ci), names)
         with cf.ThreadPoolExecutor(8) as ex:
             for axs, missing, txt in ex.map(audit, sorted(by_chunk.items())):
                 audited += len(axs)
@@ -317,13 +329,13 @@ def run(prop, tier, seed, replay=None):
     # two builds of the real code: S = -O1 with ASan/UBSan, R = the repository's own flags (-O2 -march=native);
     # undefined behaviour can compile differently in the two (it did: absCompare(x, INT32_MIN))
     import concurrent.futures as cf
-    with open(os.path.join(GEN, "integer_calls.inc"), "rb") as fh:
+    with open(os.path.join(GEN, PFX[0].lower() + PFX[1:] + "_calls.inc"), "rb") as fh:
         stub_hash = common.sha(fh.read())
     with cf.ThreadPoolExecutor(2) as ex:
-        futs = {c: ex.submit(common.build_harness, "h_integer", c, ["-I", GEN, "-DSTUBS_" + stub_hash]) for c in ("S", "R")}
+        futs = {c: ex.submit(common.build_harness, "h_integer", c, ["-I", GEN, "-DSTUBS_" + stub_hash] + SET["hflags"]) for c in ("S", "R")}
         bins = {c: f.result() for c, f in futs.items()}
     binp = bins["S"]
-    lines, stats = gen_inputs(meta, prop, seed, tier)
+    lines, stats = gen_inputs(meta, prop if SET["by_prop"] else None, seed, tier)
     if replay:
         with open(replay) as fh:
             rp = json.load(fh)
@@ -333,7 +345,7 @@ def run(prop, tier, seed, replay=None):
     crash = crash or crash_r
     n_S = len(hout)
     hout = hout + [l for l in hout_r]
-    verdicts = run_driver("integer", hout)
+    verdicts = run_driver(SET["mode"], hout)
     cfg_of = ["S"] * n_S + ["R"] * len(hout_r)
     n_ok = n_pre = 0
     diffs = []
@@ -377,9 +389,11 @@ def run(prop, tier, seed, replay=None):
         if k in by_fn and any("kind=SPEC" in x[0] or "kind=BOTH" in x[0] for x in by_fn[k]):
             continue
         # targeted search: thorough grid on this overload only
-        l2, _ = gen_inputs(meta, prop, seed + 7919, "thorough", only_keys={k}, per_fn=20000)
+        l2, _ = gen_inputs(meta, prop if SET["by_prop"] else None, seed + 7919, "thorough", only_keys={k}, per_fn=20000)
         h2, c2 = run_harness(binp, l2)
-        v2 = run_driver("integer", h2)
+        h2r, c2r = run_harness(bins["R"], l2)
+        h2 = h2 + h2r
+        v2 = run_driver(SET["mode"], h2)
         hit = [(v, l) for v, l in zip(v2, h2) if v.startswith("DIFF") and ("kind=SPEC" in v or "kind=BOTH" in v)]
         if hit:
             hit = sorted(hit, key=lambda x: len(x[1]))[:5]
@@ -425,4 +439,6 @@ def run(prop, tier, seed, replay=None):
         "unspecified_overloads": [f["key"] for f in meta["functions"] if not f["spec"]],
         "timing_s": {"translate": round(t_gen, 1), "lean": round(t_lean, 1)},
     }
-    V.finish()
+    if finish:
+        V.finish()
+    return V
